@@ -9,3 +9,11 @@ package vnet
 //verif:guarded serverRouter mu namedConns srcIPConns
 //verif:sweep-type clientRouter props=C16 kinds=lock
 //verif:sweep-type serverRouter props=C16 kinds=lock
+
+// The frame codec of the virtual network (C16 "no input crashes frpc": the read
+// loops of the vnet controller run ReadMessage on bytes the peer chose, without
+// recover): whatever the length prefix says, no allocation of a negative or
+// unchecked size, no index out of range.
+//
+//verif:sweep ~/pkg/vnet.ReadMessage props=C16 kinds=nopanic
+//verif:sweep ~/pkg/vnet.WriteMessage props=C16 kinds=nopanic
